@@ -39,7 +39,7 @@ def run(ctx):
         c = json.load(open(ctx.replay))["observation"]["case"]
         cases = [(0, c["family"]), (1, c["family"])]
     else:
-        ctx.model_check("MC_Merge", "MC_Merge.cfg", env={"VERIF_TIER": ctx.tier}, expect_actions=["MergeIn"],
+        ctx.model_check("MC_Merge", "MC_Merge.cfg", env={"VERIF_TIER": ctx.tier}, expect_actions=["MNext"],
                         coverage=False)
         scores = ctx.generate("Gen_Merge", "Gen_Merge.cfg", env={"VERIF_TIER": ctx.tier})[0]["scores"]
         rng = ctx.rng
